@@ -29,6 +29,7 @@ def run(res, tier):
     with scratch("c11_") as sdir:
         c = kc.Corpus(res, "c11")
         c.add(kc.loop_designs())
+        c.add(kc.loop_channel_designs(quick))
         c.add(kc.rand_designs("c11r", 12 if quick else 250, want="falseloop",
                               opts={"stmts_per_block": 3, "regs": 0.2}))
         c.load(sdir)
